@@ -5,9 +5,18 @@
    the implementation agrees with such a functional model along two-phase histories; that is the
    per-run correspondence of this property (harness/gens2.gen_c09).  The theorems below state the
    functional reading for the world of the interpreter: a step that writes handle [hout] leaves the
-   state bound to every other handle untouched. *)
+   state bound to every other handle untouched.
+
+   Sharing itself is modelled in Heap.v: maps are objects referencing arrays (coverage object, storage,
+   metadata) in a heap; a mutation writes a referenced array in place or rebinds a reference to a fresh
+   array; coverage objects are never written in place (checked on every mutating call of a C09 history).
+   Two objects whose mutable references are separate stay independent under every interleaving of
+   mutations of either; a producer whose result shares no mutable reference (Sharing.prod_shares: every
+   producer except the documented field view) returns such an object.  The table is compared on every
+   run with what the implementation's result actually shares (identity of the coverage object,
+   np.shares_memory of the storage, identity of the metadata). *)
 From Coq Require Import QArith.
-From HS Require Import Prelude Cov Map Spec Ops Spec2 Exec Exec2.
+From HS Require Import Prelude Cov Map Spec Ops Spec2 Exec Exec2 Sharing Heap.
 Open Scope Z_scope.
 
 Lemma wget_wset_other w h h' s : h <> h' -> wget (wset w h s) h' = wget w h'.
@@ -55,6 +64,45 @@ Proof.
     cbn [fst]; [rewrite wget_wset_other by exact Hne; exact Hs|exact Hs].
 Qed.
 
+(* ---- sharing (heap model) ---- *)
+
+(* a mutation through one map never changes what is observed through a separate one *)
+Theorem C09_mutation_is_invisible_through_a_separate_map :
+  forall (A : Type) (h : heap A) (o1 o2 : obj) (m : mut A),
+    live A h o1 -> live A h o2 -> separate o1 o2 -> cov_immutable A m ->
+    observe A (fst (apply_mut A h o1 m)) o2 = observe A h o2.
+Proof. exact other_side_unchanged. Qed.
+
+(* any history of mutations (in-place writes, reallocation = growth / resize) of one map *)
+Theorem C09_any_history_of_mutations_is_invisible :
+  forall (A : Type) (ms : list (mut A)) (h : heap A) (o1 o2 : obj),
+    live A h o1 -> live A h o2 -> separate o1 o2 -> Forall (cov_immutable A) ms ->
+    let (h', o1') := apply_muts A h o1 ms in
+    live A h' o1' /\ live A h' o2 /\ separate o1' o2 /\ observe A h' o2 = observe A h o2.
+Proof. exact muts_frame. Qed.
+
+(* interleaved histories of both maps keep them separate *)
+Theorem C09_interleaved_histories_stay_separate :
+  forall (A : Type) (ms : list (bool * mut A)) (h : heap A) (o1 o2 : obj),
+    live A h o1 -> live A h o2 -> separate o1 o2 -> Forall (fun bm => cov_immutable A (snd bm)) ms ->
+    let '(h', o1', o2') := apply_both A h o1 o2 ms in
+    live A h' o1' /\ live A h' o2' /\ separate o1' o2'.
+Proof. exact independent_histories. Qed.
+
+(* a producer that shares no mutable reference returns a map separate from its argument and leaves the
+   argument's observation unchanged *)
+Theorem C09_result_without_mutable_sharing_is_isolated :
+  forall (A : Type) (h : heap A) (arg : obj) (s : shares) (ccov csp cmeta : A),
+    live A h arg -> o_cov arg <> o_sp arg -> o_cov arg <> o_meta arg -> no_mutable_sharing s = true ->
+    let (h', r) := produce A h arg s ccov csp cmeta in
+    live A h' r /\ live A h' arg /\ separate r arg /\ observe A h' arg = observe A h arg.
+Proof. exact result_is_isolated. Qed.
+
+(* every producer of the API except the documented field view shares no mutable reference *)
+Theorem C09_only_the_field_view_shares_mutable_state :
+  forall code, code <> 8 -> no_mutable_sharing (prod_shares code) = true.
+Proof. exact copying_producers_share_no_mutable_state. Qed.
+
 Example C09_hypotheses_satisfiable :
   let w0 : world := [] in
   let (w1, _) := step2 w0 [[1]; [0]; [12; 4]; [0; -5; 1; 1]; [-5; 1]; [0]; []] in
@@ -69,4 +117,9 @@ Proof. vm_compute. split; reflexivity. Qed.
 
 Print Assumptions C09_result_binding_is_frame_preserving.
 Print Assumptions C09_single_argument_producers_leave_the_argument.
+Print Assumptions C09_mutation_is_invisible_through_a_separate_map.
+Print Assumptions C09_any_history_of_mutations_is_invisible.
+Print Assumptions C09_interleaved_histories_stay_separate.
+Print Assumptions C09_result_without_mutable_sharing_is_isolated.
+Print Assumptions C09_only_the_field_view_shares_mutable_state.
 Print Assumptions C09_hypotheses_satisfiable.
